@@ -99,17 +99,19 @@ impl Boudot2000RangeProof {
     where
         H: Digest,
     {
+        // the challenge of this proof is the whole digest, 2 * t bits (the larger-interval proof
+        // reduces its own to t bits): the blinding terms need l bits of slack over 2^(2t) * secret
         let omega = rand_int(
             Integer::from(1),
-            Integer::from(2).pow(l + t) * b - Integer::from(1),
+            Integer::from(2).pow(l + 2 * t) * b - Integer::from(1),
         );
         let mu_1 = rand_int(
             Integer::from(1),
-            Integer::from(2).pow(l + t + s1) * n - Integer::from(1),
+            Integer::from(2).pow(l + 2 * t + s1) * n - Integer::from(1),
         );
         let mu_2 = rand_int(
             Integer::from(1),
-            Integer::from(2).pow(l + t + s2) * n - Integer::from(1),
+            Integer::from(2).pow(l + 2 * t + s2) * n - Integer::from(1),
         );
         let w_1 = (Integer::from(g_1.pow_mod_ref(&omega, n).unwrap())
             * Integer::from(h_1.pow_mod_ref(&mu_1, n).unwrap()))
